@@ -477,7 +477,15 @@ class ProgramIndex:
             hits = [b for ks, b in cands if len(ks) < len(segs) and segs[-len(ks):] == ks and len(ks) >= 2]
             if len(hits) == 1:
                 return hits[0]
+            # inherent impls on type aliases (`impl DefaultIntegerConfigOption` printed as `ConfigOption::..`):
+            # a method name that only one impl block in the crate defines
+            if len(segs) >= 2 and cands:
+                names = set(b.name for ks, b in cands)
+                if len(names) == 1 and all(getattr(b, 'impl_of', None) is not None and b.impl_of[0] is None for ks, b in cands):
+                    return cands[0][1]
             return None
+        if len(hits) > 1 and len(set(b.name for b in hits)) == 1:
+            return hits[0]
         if len(hits) > 1:
             exact = [b for ks, b in cands if ks == segs]
             if len(exact) == 1:
